@@ -294,6 +294,23 @@ Section Err.
     end
     end.
 
+  (* ---------------- call cancelling: INTERRUPT while the endpoint is still running ---------------- *)
+  (* self._invocations : request id -> running invocation.  protocol.py onMessage INTERRUPT only cancels the
+     endpoint's future (txaio.cancel(invoked.on_reply)); the record STAYS until the endpoint's callback / errback
+     deletes it.  An INTERRUPT for an unknown request is logged and ignored. *)
+  Definition on_interrupt (table : list N) (req : N) : list N := table.
+  (* the errback starts with `del self._invocations[msg.request]`: KeyError — and nothing is ever sent — if the
+     record is not there any more *)
+  Definition fail_invocation (table : list N) (callee_hook : hook) (r : registry) (traceback_app : bool) (tbv : option V)
+             (req : N) (e : exn) (sr : send_result) : list N * res (list errmsg) :=
+    if existsb (N.eqb req) table
+    then (filter (fun x => negb (N.eqb x req)) table, Ok (invocation_error callee_hook r traceback_app tbv req e sr))
+    else (table, Raise KeyError).
+  (* n INTERRUPTs arrive, then the endpoint (which survived the cancellation, e.g. cleaned up asynchronously) raises e *)
+  Definition interrupted_failure (table : list N) (n : nat) (callee_hook : hook) (r : registry) (traceback_app : bool)
+             (tbv : option V) (req : N) (e : exn) (sr : send_result) : list N * res (list errmsg) :=
+    fail_invocation (Nat.iter n (fun t => on_interrupt t req) table) callee_hook r traceback_app tbv req e sr.
+
   (* the router (dealer) forwards ERROR(INVOCATION, inv_req) as ERROR(CALL, call_req) with the same URI and payload *)
   Definition end_to_end (callee_hook : hook) (construct : cls -> shape -> list V -> kw -> ctor_result) (caller_hook : hook)
              (callee_reg caller_reg : registry) (traceback_app : bool) (tbv : option V) (e : exn)
@@ -330,3 +347,4 @@ Arguments marshal_tail {V MV}. Arguments parse_tail {V}. Arguments over_the_wire
 Arguments app_error_ctor {V MV}. Arguments set_meta {V MV}. Arguments or_nil {A}.
 Arguments exception_from_message {V MV}. Arguments on_error {V MV}.
 Arguments invocation_error {V MV}. Arguments end_to_end {V MV}.
+Arguments fail_invocation {V MV}. Arguments interrupted_failure {V MV}.
